@@ -98,7 +98,8 @@ theorem isAlpha_range (c : Nat) (h : isAlpha c = true) : (97 ≤ c ∧ c ≤ 122
 
 /-- one iteration of the parsing loop on ` Name:arity` -/
 theorem loopBody_level (l : LSpec) (rest : List LSpec) (init : List Level) (lst : Level) (st : Loop)
-    (hl : SpecOk l) (hst : st.levels = init ++ [lst]) (hcount : st.levels.length + 1 < maxDepth) :
+    (hl : SpecOk l) (hst : st.levels = init ++ [lst]) (hcount : st.levels.length + 1 < maxDepth)
+    (hfit : l.arity ≤ ulongMax / st.total) :
     ∃ log, loopBody (printLevels (l :: rest)) st =
       .ok ({ st with levels := init ++ [{ lst with arity := l.arity }] ++ [mkLevel ((st.total * l.arity) % u64) l],
                      total := (st.total * l.arity) % u64, log := log }, some (printLevels rest)) := by
@@ -141,7 +142,7 @@ theorem loopBody_level (l : LSpec) (rest : List LSpec) (init : List Level) (lst 
   simp only [hdrop, hc91, if_false]
   unfold levelStep
   simp only [hdig, Bool.not_false, if_true, hpos, hts, hdis, Bool.false_eq_true, if_false, hsc, List.drop_succ_cons, List.drop_zero, hnum]
-  simp only [hne, if_false, show ¬ (l.arity = 0) by omega]
+  simp only [hne, if_false, show ¬ (l.arity = 0) by omega, show ¬ (l.arity > ulongMax / st.total) by omega]
   have hcnt : ¬ ((updLevel st.levels (st.levels.length - 1) (fun l => { l with arity := 0 })).length + 1 ≥ maxDepth) := by
     rw [updLevel_length]; omega
   have hbig : ¬ (l.arity > u32 - 1) := by omega
@@ -160,14 +161,29 @@ def totalAfter : Nat → List LSpec → Nat
   | T, [] => T
   | T, l :: rest => totalAfter ((T * l.arity) % u64) rest
 
+/-- the number of PUs written -/
+def prodAr : List LSpec → Nat
+  | [] => 1
+  | l :: rest => l.arity * prodAr rest
+
+theorem prodAr_pos (ls : List LSpec) (h : ∀ l ∈ ls, SpecOk l) : 1 ≤ prodAr ls := by
+  induction ls with
+  | nil => simp [prodAr]
+  | cons l rest ih =>
+    have h1 := (h l List.mem_cons_self).2.1
+    have h2 := ih (fun x hx => h x (List.mem_cons_of_mem _ hx))
+    simp only [prodAr]
+    exact Nat.mul_le_mul h1 h2
+
 theorem mainLoop_levels : ∀ (ls : List LSpec) (fuel : Nat) (init : List Level) (lst : Level) (st : Loop),
     ls.length < fuel → st.levels = init ++ [lst] → st.levels.length + ls.length < maxDepth → (∀ l ∈ ls, SpecOk l) →
+    1 ≤ st.total → st.total * prodAr ls ≤ ulongMax →
     ∃ log, mainLoop fuel (printLevels ls) st =
       .ok { st with levels := chain init lst st.total ls, total := totalAfter st.total ls, log := log } := by
   intro ls
   induction ls with
   | nil =>
-    intro fuel init lst st hf hst _ _
+    intro fuel init lst st hf hst _ _ _ _
     refine ⟨st.log, ?_⟩
     cases fuel with
     | zero => simp at hf
@@ -175,12 +191,23 @@ theorem mainLoop_levels : ∀ (ls : List LSpec) (fuel : Nat) (init : List Level)
       simp only [printLevels, mainLoop, chain, totalAfter]
       rw [← hst]
   | cons l rest ih =>
-    intro fuel init lst st hf hst hcount hok
+    intro fuel init lst st hf hst hcount hok ht1 hfit
     cases fuel with
     | zero => simp at hf
     | succ f =>
+      have hrp := prodAr_pos rest (fun x hx => hok x (List.mem_cons_of_mem _ hx))
+      have hla := (hok l List.mem_cons_self).2.1
+      have hmul : st.total * l.arity ≤ ulongMax := by
+        simp only [prodAr] at hfit
+        calc st.total * l.arity = st.total * l.arity * 1 := by omega
+          _ ≤ st.total * l.arity * prodAr rest := Nat.mul_le_mul_left _ hrp
+          _ = st.total * (l.arity * prodAr rest) := by rw [Nat.mul_assoc]
+          _ ≤ ulongMax := hfit
+      have hfit1 : l.arity ≤ ulongMax / st.total := by
+        rw [Nat.le_div_iff_mul_le (by omega)]; rw [Nat.mul_comm]; exact hmul
+      have hmod : (st.total * l.arity) % u64 = st.total * l.arity := Nat.mod_eq_of_lt (by unfold ulongMax at hmul; unfold u64; omega)
       obtain ⟨log1, h1⟩ := loopBody_level l rest init lst st (hok l List.mem_cons_self) hst
-        (by simp only [List.length_cons] at hcount; omega)
+        (by simp only [List.length_cons] at hcount; omega) hfit1
       have hrec := ih f (init ++ [{ lst with arity := l.arity }]) (mkLevel ((st.total * l.arity) % u64) l)
         { st with levels := init ++ [{ lst with arity := l.arity }] ++ [mkLevel ((st.total * l.arity) % u64) l],
                   total := (st.total * l.arity) % u64, log := log1 }
@@ -191,6 +218,8 @@ theorem mainLoop_levels : ∀ (ls : List LSpec) (fuel : Nat) (init : List Level)
           simp only [List.length_append, List.length_cons, List.length_nil] at hcount ⊢
           omega)
         (fun x hx => hok x (List.mem_cons_of_mem _ hx))
+        (by simp only; rw [hmod]; have := Nat.mul_le_mul ht1 hla; omega)
+        (by simp only; rw [hmod]; simp only [prodAr] at hfit; rw [Nat.mul_assoc]; exact hfit)
       obtain ⟨log2, h2⟩ := hrec
       refine ⟨log2, ?_⟩
       unfold mainLoop
@@ -250,6 +279,7 @@ structure Accepts (ls : List LSpec) : Prop where
   numa : cnt ls tNUMA ≤ 1
   core : cnt ls tCORE ≤ 1
   depth : ls.length ≤ 125
+  fits : prodAr ls ≤ ulongMax
 
 theorem chain_types : ∀ (ls : List LSpec) (init : List Level) (lst : Level) (T : Nat),
     (chain init lst T ls).map (·.attr.type) = init.map (·.attr.type) ++ lst.attr.type :: ls.map (·.name.res.type) := by
@@ -522,6 +552,7 @@ theorem parse_faithful (ls : List LSpec) (h : Accepts ls) :
     omega
   obtain ⟨log1, hm⟩ := mainLoop_levels ls ((printDesc ls).length + 1) [] l0 { levels := [l0], log := [0, 0, 0, 0, 0, 0, 0] }
     hlen rfl (by have := h.depth; simp only [List.length_cons, List.length_nil]; unfold maxDepth; omega) h.ok
+    (by simp) (by simp only; rw [Nat.one_mul]; exact h.fits)
   rw [hPL, mainLoop_skip_space _ _ _ (by rw [hX]; simp)] at hm
   -- shape of the result of the loop
   have hplainL : Plain (chain [] l0 1 ls) := chain_plain ls [] l0 1 (by intro x hx; cases hx) ⟨rfl, rfl⟩
